@@ -11,14 +11,17 @@ package main
 // from a second goroutine here.
 
 import (
+	"bytes"
 	"errors"
 	"fmt"
 	"math/rand"
 	"net"
 	"os"
+	"os/exec"
 	"strings"
 	"sync"
 	"sync/atomic"
+	"syscall"
 	"testing"
 	"time"
 
@@ -26,7 +29,56 @@ import (
 	"vf/wire"
 )
 
+// TestVerifC09 runs the stress in a child process: a panic or runtime fatal
+// error in a goroutine of the code under test (which ends the process) is then a
+// verdict with its stack, not a harness failure.
+type c09Sink struct{ addr string }
+
+func (b *c09Sink) Send(*Message) error { return nil }
+func (b *c09Sink) GetAddress() string  { return b.addr }
+func (b *c09Sink) Close()              {}
+
 func TestVerifC09(t *testing.T) {
+	if os.Getenv("VF_C09_CHILD") == "" {
+		cmd := exec.Command(os.Args[0], "-test.run", "^TestVerifC09$", "-test.timeout", "0")
+		cmd.Env = append(os.Environ(), "VF_C09_CHILD=1", "GOTRACEBACK=all")
+		var out bytes.Buffer
+		cmd.Stdout, cmd.Stderr = &out, &out
+		err := cmd.Run()
+		text := out.String()
+		for _, line := range strings.Split(text, "\n") {
+			if strings.HasPrefix(line, "VIOLATION") || strings.HasPrefix(line, "SUMMARY") || strings.HasPrefix(line, "KNOWN-FINDING") || strings.HasPrefix(line, "EVIDENCE-WRITE-FAILED") {
+				fmt.Println(line)
+			}
+		}
+		crashed := strings.Contains(text, "panic:") || strings.Contains(text, "fatal error:")
+		if crashed || (err != nil && !strings.Contains(text, "SUMMARY property=C09")) {
+			run := ev.New("C09", "exploration", "in-process stress of the program's real sharing patterns (child process died)")
+			i := strings.Index(text, "panic:")
+			if j := strings.Index(text, "fatal error:"); i < 0 || (j >= 0 && j < i) {
+				i = j
+			}
+			if i < 0 {
+				i = 0
+			}
+			tail := text[i:]
+			if len(tail) > 4000 {
+				tail = tail[:4000]
+			}
+			run.Eval("child-died")
+			run.Eval("child-died-2")
+			run.Violation("the code under test crashed under concurrent membership changes and dispatch", map[string]any{"exit": fmt.Sprint(err), "output": tail})
+			vfFinish(t, run, 1)
+		}
+		return
+	}
+	// resolution results without quiescence legitimately leave duplicate UDP backends
+	// (one socket each) behind: give the stress room
+	var lim syscall.Rlimit
+	if syscall.Getrlimit(syscall.RLIMIT_NOFILE, &lim) == nil {
+		lim.Cur = lim.Max
+		syscall.Setrlimit(syscall.RLIMIT_NOFILE, &lim)
+	}
 	run := ev.New("C09", "exploration",
 		"in-process stress under the race detector of the program's real sharing patterns: (a) two proxies (= two listeners of one service) with their own loops sharing one learned-route table, fed concurrently; (b) buffer pool between an allocating and a freeing goroutine; "+
 			"(c) host-name registration by several listeners concurrent with resolution results and their notification goroutines; (d) rotation membership driven by resolution results while the loop dispatches to UDP and TCP backends (backends closed while sends are in progress); oracle = deduplicated race reports of this process + panics; distinct = stress patterns x rounds")
@@ -120,7 +172,7 @@ func TestVerifC09(t *testing.T) {
 			go func() {
 				defer wg.Done()
 				r := rand.New(rand.NewSource(int64(round)))
-				for k := 0; k < 150; k++ {
+				for k := 0; k < 500; k++ {
 					n := r.Intn(4)
 					var set []string
 					for j := 0; j < n; j++ {
@@ -128,7 +180,9 @@ func TestVerifC09(t *testing.T) {
 					}
 					dynamicHostResolver.addressResolved(host, set, nil)
 					atomic.AddInt64(&ops, 1)
-					time.Sleep(300 * time.Microsecond)
+					if k%8 == 0 {
+						time.Sleep(100 * time.Microsecond)
+					}
 				}
 				close(stop)
 			}()
@@ -152,6 +206,44 @@ func TestVerifC09(t *testing.T) {
 		}
 		run.Eval(fmt.Sprintf("round%d", round))
 		time.Sleep(20 * time.Millisecond)
+	}
+	// (e) the same sharing pattern at volume: the resolver's goroutine changes the
+	// membership of a rotation while the loop's goroutine dispatches in a tight loop
+	// (a panic here ends this child process, which the parent reports)
+	{
+		rb := NewRoundRobinBackend()
+		rb.AddBackend(&c09Sink{addr: "10.9.1.1:5060"})
+		stop := make(chan struct{})
+		var wg sync.WaitGroup
+		wg.Add(1)
+		go func() {
+			defer wg.Done()
+			for {
+				select {
+				case <-stop:
+					return
+				default:
+				}
+				rb.hostIPChanged("tcp", "127.0.0.1:0", "h", []string{"10.9.1.2", "10.9.1.3"}, nil, "5060", func(net.Conn) {})
+				rb.hostIPChanged("tcp", "127.0.0.1:0", "h", nil, []string{"10.9.1.3", "10.9.1.2"}, "5060", func(net.Conn) {})
+			}
+		}()
+		n := ev.Pick(600000, 8000000)
+		for i := 0; i < n; i++ {
+			// TCP backends towards an address nobody listens on: the dial is refused at once
+			if i%64 == 0 {
+				rb.Send(NewMessage())
+			} else {
+				idx, err := rb.getNextBackendIndex()
+				if err == nil {
+					rb.getBackend(idx)
+				}
+			}
+			atomic.AddInt64(&ops, 1)
+		}
+		close(stop)
+		wg.Wait()
+		run.Eval("rotation-hammer")
 	}
 	run.Observe("operations", ops)
 	// this process's own race log
